@@ -114,7 +114,7 @@ def check_case(rec, case):
         elif b is False and w in L:
             b2 = pd.accepts_capped(RP, w, 12, 60000)
             rec.counters['oracle_B_needs_higher_cap' if b2 else 'oracle_B_undetermined'] += 1
-    o = call(adapt.build_pda, RP, case.get('eps', ''))
+    o = call(adapt.build_pda, RP, case.get('eps', ''), scramble=case.get('scr'))
     if not o.ok:
         rec.inconc('cannot build PDA: %r' % (o.exc,))
         return
@@ -174,6 +174,9 @@ def gen_cases(rec, rng, tier):
         yield {'cls': 'random_pda', 'ref': RP, 'n': n if lim <= 50 else 3, 'limit': lim, 'eps': rng.choice(['', '_', 'ε'])}
         lim2 = rng.choice([l for l in limits if l != lim and l <= 50])
         yield {'cls': 'random_pda', 'ref': RP, 'n': n, 'limit': lim2, 'eps': '', 'requery': True}
+        RPc = pdag.colliding_names(rng, RP)
+        if RPc is not None:
+            yield {'cls': 'colliding_state_and_stack_names', 'ref': RPc, 'n': n, 'eps': '', 'limit': rng.choice([10, 50, 1000])}
 
 
 def run(rec, rng, tier):
@@ -183,4 +186,4 @@ def run(rec, rng, tier):
         check_case(rec, rc)
         return
     for case in gen_cases(rec, rng, tier):
-        check_case(rec, case)
+        check_case(rec, common.with_scramble(case))
